@@ -326,6 +326,16 @@ Definition corr_b64enc (s : bytes) : val := VStr (b64enc s).
 Definition corr_salted (p : str * str) : val :=
   match salted_secret (fst p) (snd p) with Some k => VStr k | None => UEE end.
 
+(* the hmac answer the model needs for token t is one the implementation obtained *)
+Definition mac_needed_ok (mt : mac_table) (dsize : nat) (key : bytes) (t : str) : bool :=
+  match latin1 t with
+  | None => true
+  | Some b => match decoded b with
+              | None => true
+              | Some f => match tbl_mac mt key (skipn dsize f) with Some _ => true | None => false end
+              end
+  end.
+
 (* ((salt, secret), dsize, token, mac answers, json answers) *)
 Definition corr_loads (i : (str * str) * nat * str * mac_table * deser_table) : val :=
   let '(ss, dsize, t, mt, dt) := i in
@@ -333,7 +343,12 @@ Definition corr_loads (i : (str * str) * nat * str * mac_table * deser_table) : 
   | None => UEE
   | Some key =>
       VList [val_of_res (signed_loads str (mac_of mt) dsize (deser_of dt) key t);
-             VBool (keys_ok mt key)]
+             VBool (keys_ok mt key); VBool (mac_needed_ok mt dsize key t);
+             (* serializer.loads is reached only behind a valid signature *)
+             VBool match signed_loads unit (mac_of mt) dsize (fun _ => Ok tt) key t with
+                   | Ok _ => true
+                   | ValueError => false
+                   end]
   end.
 
 (* ((salt, secret), value id, mac answers, json.dumps answers) *)
@@ -360,9 +375,14 @@ Definition val_of_gv (r : res (option str)) : val :=
 Definition corr_get_value (i : sprofile * option jar * nat * mac_table * deser_table) : val :=
   let '(p, bindto, dsize, mt, dt) := i in
   let p' := match bindto with Some j => sp_bind p j | None => p end in
-  match sp_get_value str (mac_of mt) dsize (deser_of dt) p' with
-  | None => UEE
-  | Some r => val_of_gv r
+  match salted_secret (sp_salt p') (sp_secret p'), sp_get_value str (mac_of mt) dsize (deser_of dt) p' with
+  | Some key, Some r =>
+      VList [val_of_gv r; VBool (keys_ok mt key);
+             VBool match sp_request p' with
+                   | Some (JarValue t) => mac_needed_ok mt dsize key t
+                   | _ => true
+                   end]
+  | _, _ => UEE
   end.
 
 (* plain CookieProfile(name) [.bind(request)] .get_value() with the default Base64Serializer *)
@@ -376,4 +396,13 @@ Definition corr_get_headers (i : sprofile * str * mac_table * ser_table) : val :
   | None => UEE
   | Some ValueError => VE
   | Some (Ok hs) => VList (map VStr hs)
+  end.
+
+(* CookieProfile(name, domains=..., serializer=<identity on bytes>).get_headers(value): the limit at
+   every length, including those no base64 token can have *)
+Definition corr_get_headers_raw (i : str * list str * bytes) : val :=
+  let '(name, doms, v) := i in
+  match get_headers bytes (fun b => b) (mk_cookie_plain name) doms v with
+  | ValueError => VE
+  | Ok hs => VList (map VStr hs)
   end.
